@@ -59,6 +59,10 @@ type RootCase struct {
 	Swamps []SwampSpec `json:"swamps"`
 	Cfg    Cfg         `json:"cfg"`
 	Fault  *Fault      `json:"fault,omitempty"`
+	// Rerun: after a first fault-free run that keeps the legacy files, every live key of the
+	// legacy swamps gets a new value through the V1 engine (same key set) and the migrator runs
+	// again with this configuration over the .hyd files the first run left.
+	Rerun *Cfg `json:"rerun,omitempty"`
 }
 
 var rlimitPositions = []string{"zero", "in-header", "header-end", "in-name", "name-end", "in-block-header", "block-header-end", "in-block", "last-byte", "rand", "rand", "rand"}
@@ -74,6 +78,9 @@ func genRoot(c *rig.Check, idx int, faulted bool) RootCase {
 		rc.Swamps = append(rc.Swamps, genSwamp(r, i, faulted && r.IntN(3) > 0))
 	}
 	rc.Cfg = Cfg{Verify: r.IntN(2) == 0, DeleteOld: r.IntN(2) == 0, DryRun: !faulted && r.IntN(6) == 0, Parallel: 1 + r.IntN(4)}
+	if !faulted && !rc.Cfg.DryRun && !rc.Cfg.DeleteOld && r.IntN(4) > 0 {
+		rc.Rerun = &Cfg{Verify: r.IntN(2) == 0, DeleteOld: r.IntN(3) > 0, Parallel: 1 + r.IntN(4)}
+	}
 	if faulted {
 		f := &Fault{Target: r.IntN(4), Chunk: r.IntN(64) - 8}
 		switch x := r.IntN(20); {
@@ -453,6 +460,84 @@ func runRoot(c *rig.Check, rc *RootCase) {
 			report(evs, i)
 		}
 		c.Sample(map[string]any{"cfg": rc.Cfg, "swamps": len(rc.Swamps), "first_name": rc.Swamps[0].Name, "first_ops": len(rc.Swamps[0].Ops), "first_max_file": rc.Swamps[0].MaxFile})
+		if rc.Rerun == nil || rc.Cfg.DryRun || rc.Cfg.DeleteOld {
+			return
+		}
+		// ---- second run over the files the first run left, after the legacy data changed
+		changed := 0
+		for i := range rc.Swamps {
+			last := map[string]Op{}
+			for _, o := range rc.Swamps[i].Ops {
+				if o.Op == "set" {
+					last[o.Key] = o
+				}
+			}
+			sp2 := SwampSpec{Name: rc.Swamps[i].Name, MaxFile: rc.Swamps[i].MaxFile}
+			keys := make([]string, 0, len(refs[i].Load))
+			for k := range refs[i].Load {
+				keys = append(keys, k)
+			}
+			sort.Strings(keys)
+			for _, k := range keys {
+				o, ok := last[k]
+				if !ok {
+					continue
+				}
+				o.Seed = o.Seed*31 + 7
+				if o.Size > 0 {
+					o.Size++
+				}
+				sp2.Ops = append(sp2.Ops, o)
+				changed++
+			}
+			sp2.Ops = append(sp2.Ops, Op{Op: "flush"}, Op{Op: "close"})
+			BuildV1(data, &sp2)
+		}
+		copy2 := filepath.Join(root, "copy2")
+		if err := CopyTree(data, copy2); err != nil {
+			c.Inconclusive("cannot copy the legacy data root before the second run: " + err.Error())
+			return
+		}
+		before2 := SnapDir(data)
+		refs2 := make([]*Ref, len(rc.Swamps))
+		for i := range rc.Swamps {
+			ref, err := LoadV1(SwampFolder(copy2, rc.Swamps[i].Name), rc.Swamps[i].MaxFile)
+			if err != nil {
+				c.Inconclusive("legacy reference before the second run: " + err.Error())
+				return
+			}
+			refs2[i] = ref
+		}
+		res2 := runMigrator(data, *rc.Rerun, -1)
+		c.Count("migrator_reruns", 1)
+		c.Count("rerun_changed_records", int64(changed))
+		c.Seen("rerun_configs", fmt.Sprintf("verify=%v delete=%v", rc.Rerun.Verify, rc.Rerun.DeleteOld))
+		for i := range rc.Swamps {
+			// Only the case "same keys, new values" is judged: what a second run owes for keys that
+			// left the legacy store between the runs (the writer appends to the first run's file)
+			// is not specified. The legacy engine's own rewrite can drop stale chunk copies of a key.
+			sameKeys := len(refs[i].Cands) == len(refs2[i].Cands) && len(refs[i].Load) == len(refs2[i].Load)
+			for k := range refs[i].Cands {
+				if _, ok := refs2[i].Cands[k]; !ok {
+					sameKeys = false
+				}
+			}
+			for k := range refs[i].Load {
+				if _, ok := refs2[i].Load[k]; !ok {
+					sameKeys = false
+				}
+			}
+			if !sameKeys {
+				c.Count("rerun_swamps_skipped_key_set_changed", 1)
+				continue
+			}
+			c.Count("rerun_swamps_judged", 1)
+			evs, _, _ := evaluate("rerun", false, *rc.Rerun, data, &rc.Swamps[i], refs2[i], nil, before2, res2)
+			c.Case(rig.Dump(map[string]any{"s": rc.Swamps[i], "c": rc.Cfg, "rerun": rc.Rerun}), len(refs2[i].Cands) > 0 && changed > 0)
+			for _, ev := range evs {
+				c.Violate("rerun:"+ev.sig, "second migration run after the legacy values changed (same keys): "+ev.what, map[string]any{"case": rc, "swamp": rc.Swamps[i].Name})
+			}
+		}
 		return
 	}
 
@@ -635,6 +720,15 @@ func TestCheck(t *testing.T) {
 	}
 	for _, rc := range fixedRoots() {
 		roots = append(roots, rc)
+		if !rc.Cfg.DryRun && !rc.Cfg.DeleteOld {
+			// the fixed swamps migrated twice: the second run finds the first run's .hyd files
+			for j, c2 := range []Cfg{{Verify: true, DeleteOld: true, Parallel: 1}, {Verify: false, DeleteOld: false, Parallel: 3}} {
+				r2 := rc
+				r2.Idx = rc.Idx + 100*(j+1)
+				r2.Rerun = &Cfg{Verify: c2.Verify, DeleteOld: c2.DeleteOld, Parallel: c2.Parallel}
+				roots = append(roots, r2)
+			}
+		}
 	}
 	per := c.N(4, 24)
 	var specs []any
